@@ -11,7 +11,7 @@ REALS = ['0.', '1.', '-1.5', '2.E5', '1.0E-10', '+3.25', '1.E+10', '123456789.01
          '1.0E0', '-0.', '100.', '6.02214076E+23']
 STRS = ['', 'a', 'hello world', "it''s", 'x\\\\y', '\\S\\i', '\\X\\E9', '\\X2\\00E9\\X0\\', '\\X4\\0001F600\\X0\\',
         '#12', '(a,b)', 'semi;colon', '/* not a comment */', "''", 'UPPER lower 0123', '$', '*', '.T.', "a''''b",
-        'tab\\X\\09end', 'ENDSEC', 'DATA;', '=', '"q"', '\\PA\\']
+        'tab\\X\\09end', 'ENDSEC', 'DATA;', '=', '"q"', '\\PA\\', 'left (of #2', 'b) c', '((', ')(', "(''"]
 BINS = ['0', '1F', '3A', '2FF', '0ABCDEF0123456789', '1', '04', '3']
 
 
